@@ -88,7 +88,26 @@ def r1(ctx):
         yi = f.target.idx
         wantu = e1.fn_atom("and", *sorted([Rat.atom(e1.cmp_atom("Lt", yi[1], oh)), Rat.atom(e1.cmp_atom("Lt", yi[2], ow))], key=str))
         ok_up = str(wantu) == str(ups[0])
-    ctx.check("R02.1", "deconvolution:crop-guards", lows == want and ok_up, "crop-guards:" + ";".join(lows)[:100], where, "0 <= out index < out extent on both axes",
+    # and nothing else restricts the accumulation: the full set of guards (conjunctions flattened) is exactly the four bounds
+    def flat_guards(gs):
+        out = []
+        for g in gs:
+            a = str(g)
+            if a in e1.REG and e1.REG[a][0] == "and":
+                out += flat_guards(e1.REG[a][1])
+            else:
+                out.append(str(macsig.rn(g, ren)) if not isinstance(g, str) else g)
+        return out
+    allg = sorted(flat_guards(f.guards))
+    extra_ok = True
+    if ya:
+        oh, ow = ya[0][1], ya[0][2]
+        yi = f.target.idx
+        want_all = sorted(want + [str(macsig.rn(Rat.atom(e1.cmp_atom("Lt", yi[1], oh)), ren)), str(macsig.rn(Rat.atom(e1.cmp_atom("Lt", yi[2], ow)), ren))])
+        extra_ok = allg == want_all
+        if not extra_ok:
+            lows = lows + ["+other:" + ",".join(sorted(set(allg) - set(want_all)))[:80]]
+    ctx.check("R02.1", "deconvolution:crop-guards", lows == want and ok_up and extra_ok, "crop-guards:" + ";".join(lows)[:100], where, "0 <= out index < out extent on both axes",
               "guards %s / %s" % (lows, [str(u)[:80] for u in ups]))
     dom = {ren.get("%s#%d" % (l[1], l[0]), l[1]): str(l[3]) for l in f.loops}
     okd = (dom.get("K0") == "len(kernels)" and dom.get("K1") == "len(kernels[0])" and dom.get("K2") == "len(kernels[0][0])" and dom.get("K3") == "len(kernels[0][0][0])"
@@ -259,7 +278,7 @@ def run(ctx):
     ctx.floor("R02.1", 12, "")
     ctx.floor("R02.4", 5, "")
     ctx.floor("R02.5", 10, "")
-    ctx.guard("R02.2", "axis-typing", spatial.axis_typing, ctx, "R02.2", FWD_FNS, 120)
+    ctx.guard("R02.2", "axis-typing", spatial.axis_typing, ctx, "R02.2", FWD_FNS, 61)  # measured 122
     for l in spatial.LAYERS:
         ctx.guard("R02.3", l, spatial.flat_rechunk, ctx, "R02.3", l)
     ctx.floor("R02.3", 6, "dims source + chunk sizes in three forwards")
